@@ -90,7 +90,7 @@ INVARIANT Export
 PROPERTIES OtherKbsUntouched InstancesIsolated RemovedStaysRemoved RejectedBuildHarmless DupKeepsExisting
 CHECK_DEADLOCK FALSE
 """ % (", ".join('"%s"' % k for k in kbs), max_inst, depth, ", ".join('"%s"' % o for o in ops))
-    res = tlc(None, "GruleLibrary.tla", "MCLibrary.cfg", d, workers=4, timeout=3000, cfg_text=cfg)
+    res = tlc(None, "GruleLibrary.tla", "MCLibrary.cfg", d, workers=4, timeout=3000, cfg_text=cfg, heap="6g")
     if not res["ok"]:
         tlc_failed(res, "GruleLibrary " + label)
     n = 0
